@@ -14,6 +14,8 @@ ROOT = os.path.dirname(os.path.dirname(os.path.abspath(__file__)))
 def _concrete_run(case, mods, model=None, seed=0):
     from .ctx import AssumptionFailed, ConcreteCtx
     from . import core
+    from . import shims
+    shims.reset_library(mods)  # every concrete run starts from the state of the freshly imported library, like every symbolic path
     ctx = ConcreteCtx(mods, model=model, seed=seed)
     outcome = "ok"
     detail = None
